@@ -155,6 +155,44 @@ def timer_worker(a):
     return r
 
 
+def timeout_switch_worker(a):
+    """The request timeout is switched on or off by a reload while requests are live: a request keeps the timer it was given (or
+    none) until it goes, whichever way the setting reads by then.  All clients stay incomplete, so no verdict is due; the counts
+    must follow and the exit must be clean (no crash on a request without a timer, no timer left behind on a freed one)."""
+    b, seed, up = a["build"], a["seed"], a["up"]
+    rng = random.Random(seed)
+    svcs = [("login.svc", "login")]
+    cfg = proto.Config(svcs, timeout=(rng.choice([None, 0]) if up else 1))
+    s = proto.Session(b, cfg, leaks=True)
+    try:
+        first = [11, 12, 13, 14, 15, 16]
+        for cid in first:
+            s.do({"t": "announce", "id": cid, "ip": "10.3.3.%d" % cid, "port": 4000 + cid})
+            if cid % 2:
+                s.do({"t": "nick", "id": cid, "name": "n%d" % cid})
+        s.do({"t": "stats"})
+        s.do({"t": "reload", "services": [list(x) for x in svcs], "timeout": (1 if up else 0)})
+        for cid in first[:3]:
+            s.do({"t": rng.choice(["disconnect", "registered"]), "id": cid})
+        s.do({"t": "stats"})
+        for cid in (21, 22):
+            s.do({"t": "announce", "id": cid, "ip": "10.3.4.%d" % cid, "port": 4000 + cid})
+        time.sleep(1.6)
+        s.do({"t": "stats"})
+        s.do({"t": "announce", "id": first[3], "ip": "10.3.5.1", "port": 4100})      # one of the old ones is announced again
+        for cid in first[3:] + [21, 22]:
+            if cid in s.open:
+                s.do({"t": rng.choice(["disconnect", "registered"]), "id": cid})
+        s.do({"t": "stats"})
+        s.finish()
+    except Exception:
+        s.kill()
+        raise
+    r = prun.post(s, b, cfg, ["C10"], seed, do_shrink=False)
+    r["stats"]["timeout_switch_runs"] = 1
+    return r
+
+
 def run(chk, tier, scale=1.0):
     b = prun.build_daemon("c10-" + tier)
     n = int((32 if tier == "quick" else 600) * scale)
@@ -165,7 +203,7 @@ def run(chk, tier, scale=1.0):
         cfg = pcommon.random_config(rng, want_class=(rng.random() < 0.2))
         idl = list(range(1, nids + 1))
         if i % 3 == 1:
-            idl = idl[:max(3, nids - 6)] + [-2147483648, -2000000000, 2000000000, 2147483647, -2, 1 + (1 << 20)]
+            idl = idl[:max(3, nids - 7)] + [-2147483648, -2000000000, 2000000000, 2147483647, -2, 1 + (1 << 20), 0]
         jobs.append(dict(build=b, config=cfg.to_json(), seed=rng.randrange(1 << 30), n=3000, ids=idl, props=PROPS,
                          opts={"weights": {"stats": 6, "announce": 14, "reannounce": 5, "disconnect": 6, "registered": 3, "stray": 2, "noise": 3}, "max_open": nids},
                          leaks=True, shrink=False, want_sample=(i < 2)))
@@ -188,6 +226,8 @@ def run(chk, tier, scale=1.0):
     chk.count("long_history_events", sum(r["nsteps"] for r in lres))
     tres = vcommon.pmap(timer_worker, timers)
     prun.fold(chk, "C10", tres, crash_is_violation=True)
+    prun.fold(chk, "C10", vcommon.pmap(timeout_switch_worker, [dict(build=b, seed=chk.seed * 17 + k, up=(k % 2 == 0)) for k in range(4 if tier == "quick" else 32)]),
+              crash_is_violation=True)
     ores = [f.result() for f in old_futs]
     old_pool.shutdown()
     prun.fold(chk, "C10", ores, crash_is_violation=True)
@@ -195,7 +235,7 @@ def run(chk, tier, scale=1.0):
     chk.count("clean_exits_with_leak_check", len(res) + len(lres) + len(tres) - chk.observed.get("daemon_unclean", 0))
     chk.rule = ("(1) random lock-step histories of 3000 events over 5..500 ids with `? stats` at random points: the reported 'in use' must equal the number of clients "
                 "announced and not withdrawn / registered / decided (re-announcement replaces); (2) one pipelined history of %s events with up to %s concurrent clients; "
-                "(4) requests left pending for 11 s (statistics list them as old), then withdrawn one by one with statistics in between; (3) real-timer runs (timeout 1 s): clients finished by D, T, verdict, refusal or replaced by re-announcement, then 1.6 s idle - a timer of a finished request "
+                "(5) the request timeout switched on / off by a reload while requests are live; (4) requests left pending for 11 s (statistics list them as old), then withdrawn one by one with statistics in between; (3) real-timer runs (timeout 1 s): clients finished by D, T, verdict, refusal or replaced by re-announcement, then 1.6 s idle - a timer of a finished request "
                 "firing shows as use-after-free, as output naming a closed client, or as a leaked event; every run must end with exit 0 and a clean LeakSanitizer report; "
                 "distinct = input stream; non-trivial = at least one verdict" % ("200 000" if tier == "quick" else "2 000 000", "500" if tier == "quick" else "5000"))
     chk.require("stats_checks", 3000 * min(1.0, scale))
